@@ -13,6 +13,7 @@ import (
 	"time"
 
 	"go.uber.org/thriftrw/protocol/binary"
+	"go.uber.org/thriftrw/protocol/stream"
 	"go.uber.org/thriftrw/wire"
 	"verifharness/internal/sx"
 	"verifharness/internal/wj"
@@ -314,6 +315,79 @@ func c02Big(id string, shape string, sizes []int, r *rand.Rand) wj.J {
 		rd := binary.Default.Reader(ch)
 		o["sdec"] = digestParts(sx.ReadValue(rd, v.Type()))
 		rd.Close()
+		// the same value written with WriteString and read with ReadString (what generated code does for string fields)
+		var tbuf bytes.Buffer
+		tw := binary.Default.Writer(&tbuf)
+		var terr error
+		step := func(e error) {
+			if terr == nil {
+				terr = e
+			}
+		}
+		if shape == "list" {
+			step(tw.WriteListBegin(stream.ListHeader{Type: wire.TBinary, Length: len(bins)}))
+			for _, b := range bins {
+				step(tw.WriteString(string(b)))
+			}
+			step(tw.WriteListEnd())
+		} else {
+			step(tw.WriteStructBegin())
+			for i, b := range bins {
+				step(tw.WriteFieldBegin(stream.FieldHeader{ID: int16(7 + i), Type: wire.TBinary}))
+				step(tw.WriteString(string(b)))
+				step(tw.WriteFieldEnd())
+			}
+			step(tw.WriteStructEnd())
+		}
+		tw.Close()
+		o["sws"], o["swserr"] = split(tbuf.Bytes()), errClass(terr)
+		sres := wj.J{"ec": "none", "parts": []wj.J{}}
+		var sps []wj.J
+		tr := binary.Default.Reader(sx.NewChunked(enc, "rand", int64(len(enc))+1))
+		var rerr error
+		readOne := func(id int) {
+			if rerr != nil {
+				return
+			}
+			var str string
+			str, rerr = tr.ReadString()
+			if rerr == nil {
+				sps = append(sps, wj.J{"id": id, "len": len(str), "sha": sum([]byte(str))})
+			}
+		}
+		if shape == "list" {
+			var lh stream.ListHeader
+			lh, rerr = tr.ReadListBegin()
+			for i := 0; rerr == nil && i < lh.Length; i++ {
+				readOne(i)
+			}
+			if rerr == nil {
+				rerr = tr.ReadListEnd()
+			}
+		} else {
+			rerr = tr.ReadStructBegin()
+			for rerr == nil {
+				var fh stream.FieldHeader
+				var ok bool
+				fh, ok, rerr = tr.ReadFieldBegin()
+				if rerr != nil || !ok {
+					break
+				}
+				readOne(int(fh.ID))
+				if rerr == nil {
+					rerr = tr.ReadFieldEnd()
+				}
+			}
+			if rerr == nil {
+				rerr = tr.ReadStructEnd()
+			}
+		}
+		tr.Close()
+		sres["ec"] = errClass(rerr)
+		if sps != nil {
+			sres["parts"] = sps
+		}
+		o["sdecs"] = sres
 	})
 	return o
 }
@@ -328,7 +402,18 @@ func cmdC02(args []string) error {
 		return err
 	}
 	defer out.close()
+	sizeRand := rand.New(rand.NewSource(c.seed + 77))
 	err = readCases(c.cases, func(m map[string]interface{}) error {
+		if raw, ok := m["sizes"].([]interface{}); ok { // a binary-length case of WireSizes.tla
+			var ss []int
+			for _, x := range raw {
+				f, _ := x.(float64)
+				ss = append(ss, int(f))
+			}
+			id, _ := m["id"].(string)
+			shape, _ := m["shape"].(string)
+			return out.write(c02Big(id, shape, ss, sizeRand))
+		}
 		v, err := wj.FromJSON(m["v"])
 		if err != nil {
 			return err
